@@ -410,6 +410,7 @@ def rule_terms_are_a_multiset(ctx: Ctx, rep: Report, rule: str, module_prefixes:
 
 MUTABLE_CONTAINERS = {"list", "dict", "set", "bytearray", "List", "Dict", "Set", "deque", "defaultdict"}
 CACHE_DECORATORS = {"lru_cache", "cache"}
+UNHASHABLE = {"bytearray", "memoryview", "list", "dict", "set", "List", "Dict", "Set", "Sequence", "Iterable", "Mapping", "MutableSequence", "BytesIO", "BinaryIO"}
 CONSUMERS = {"list", "tuple", "sorted", "set", "frozenset", "any", "all", "sum", "max", "min", "dict", "enumerate", "zip", "map", "filter", "reversed", "iter", "next"}
 
 
@@ -422,14 +423,21 @@ def _decorator_names(fn: ast.AST) -> set[str]:
 
 
 def _alias_value(ctx: Ctx, name: str) -> ast.AST | None:
-    try:
-        al = ctx.module("btclib.alias")
-    except Exception:
-        return None
-    for st in al.tree.body:
-        if isinstance(st, ast.Assign) and len(st.targets) == 1 and isinstance(st.targets[0], ast.Name) and st.targets[0].id == name:
-            return st.value
-    return None
+    """The definition of a type alias: in btclib.alias, or (PubKey, PrvKey, BIP32Key, ...) at the
+    top level of the module that owns it -- an assignment whose value is a union / subscript / name."""
+    cache = getattr(ctx, "_alias_cache", None)
+    if cache is None:
+        cache = {}
+        for mq, mi in sorted(ctx.prog.modules.items(), key=lambda kv: (kv[0] != "btclib.alias", kv[0])):
+            for st in mi.tree.body:
+                if isinstance(st, ast.Assign) and len(st.targets) == 1 and isinstance(st.targets[0], ast.Name) and st.targets[0].id[:1].isupper() \
+                        and (isinstance(st.value, ast.Subscript) or (isinstance(st.value, ast.BinOp) and isinstance(st.value.op, ast.BitOr))):
+                    cache.setdefault(st.targets[0].id, st.value)
+        try:
+            ctx._alias_cache = cache
+        except AttributeError:
+            pass
+    return cache.get(name)
 
 
 def _annotation_names(ctx: Ctx, ann: ast.AST | None, _depth: int = 0) -> set[str]:
@@ -497,6 +505,33 @@ def rule_no_stale_cache(ctx: Ctx, rep: Report, rule: str, module_prefixes: tuple
             names = _annotation_names(ctx, fi.node.returns)
             if names & MUTABLE_CONTAINERS:
                 cached[q.rsplit(".", 1)[-1]] = fi
+    # (c) the arguments of a memoized function are its cache key: where a parameter of it admits an
+    # unhashable spelling, no caller hands it its own loose parameter as it came
+    loose_cached: dict[str, tuple[FuncInfo, list[int]]] = {}
+    for q, fi in sorted(ctx.prog.functions.items()):
+        if _decorator_names(fi.node) & CACHE_DECORATORS:
+            a = fi.node.args
+            idx = [i for i, p_ in enumerate(a.posonlyargs + a.args) if _annotation_names(ctx, p_.annotation) & UNHASHABLE]
+            if idx:
+                loose_cached[q.rsplit(".", 1)[-1]] = (fi, idx)
+    for q, fi in sorted(ctx.prog.functions.items()):
+        if not any(q.startswith(p_) for p_ in module_prefixes):
+            continue
+        a = fi.node.args
+        mine = {p_.arg for p_ in a.posonlyargs + a.args + a.kwonlyargs if _annotation_names(ctx, p_.annotation) & UNHASHABLE}
+        for c in own_nodes(fi.node):
+            if not (isinstance(c, ast.Call) and call_name(c) in loose_cached):
+                continue
+            cf, idx = loose_cached[call_name(c)]
+            for i in idx:
+                if i >= len(c.args):
+                    continue
+                x = c.args[i]
+                n += 1
+                raw = isinstance(x, ast.Name) and x.id in mine and not _rebound_before(fi, x.id, c) and not any(
+                    pol and str(t).replace(" ", "").startswith(f"isinstance({x.id},") for t, pol in ctx.cfg(fi).facts_at_ast(c))
+                rep.ob(rule, f"{q}->{cf.name}[{i}]:hashable", not raw, fi.where(c), "the memo's key is a converted (hashable) value" if not raw else
+                       f"`{norm(x)}` reaches the memoized `{cf.name}` as the caller spelled it, and `{_ann_text((a.posonlyargs + a.args + a.kwonlyargs)[[p_.arg for p_ in a.posonlyargs + a.args + a.kwonlyargs].index(x.id)].annotation)}` admits unhashable spellings: a bytearray key is a TypeError, a writable memoryview a ValueError read as 'does not verify'")
     for mq, mi in sorted(ctx.prog.modules.items()):
         if not any(mq.startswith(p_) for p_ in module_prefixes):
             continue
